@@ -40,7 +40,7 @@ static void lst_make_sequence(vp_rng_t* r, int mode, uint64_t idx, seq_t* s)
         case 4: name = "random-bytes-exact-size"; vp_rng_fill(r, b, n); break;
         case 5: name = "bit-flips"; mutate_bytes(r, b, n, 1 + (int)vp_rng_below(r, 4)); break;
         case 6: name = "data-length-lie"; Avtp_Pcm_SetStreamDataLength((Avtp_Pcm_t*)b, (uint16_t)vp_rng_next(r)); break;
-        case 7: name = "random-bytes"; n = (size_t)vp_rng_below(r, 1501); vp_rng_fill(r, b, n); break;
+        case 7: name = "random-bytes"; n = (size_t)vp_rng_below(r, 1601); vp_rng_fill(r, b, n);   /* up to 100 bytes more than any receive buffer holds */ break;
         default: name = "wrong-subtype"; b[0] = (uint8_t)vp_rng_next(r); break;
         }
         seq_add(s, b, n);
